@@ -190,3 +190,93 @@ pub async fn factory_finished(queue: &[u64], draining: bool, fq: usize) -> Strin
     worker_actor.stop(None);
     format!("inpool={};wqueue={};fqueue={};handled={};discards={};routed={};worker_alive={}", inpool as u8, wq.join("+"), fqv.join("+"), h.join("+"), d.join("+"), r.join("+"), alive as u8)
 }
+
+struct ProbeFactoryActor;
+impl Actor for ProbeFactoryActor {
+    type Msg = FactoryMessage<u64, u64>;
+    type State = ();
+    type Arguments = ();
+    async fn pre_start(&self, _: ActorRef<Self::Msg>, _: ()) -> Result<(), ActorProcessingErr> {
+        Ok(())
+    }
+    async fn handle_supervisor_evt(&self, _: ActorRef<Self::Msg>, _: SupervisionEvent, _: &mut ()) -> Result<(), ActorProcessingErr> {
+        Ok(())
+    }
+}
+
+/// One pool operation on a FactoryState whose pool is given slot by slot ("live" | "drain" | "-"); `busy` = live slots with a job in flight
+/// (draining slots are always busy). op: "resize:<n>" | "ActorTerminated:<slot|stranger>" | "ActorFailed:<slot|stranger>".
+/// Returns "pool_size=<n>;slots=<w>:<d><b><same actor?>+..;index=<entries>/<consistent 0|1>;alive=<actors of the original slots still running>".
+pub async fn pool_step(pool_size: usize, slots: &[String], busy: &[usize], op: &str) -> String {
+    use crate::factory::worker::verif_probe as wp;
+    let (me, _mh) = Actor::spawn(None, ProbeFactoryActor, ()).await.unwrap();
+    let mut pool = HashMap::new();
+    let mut worker_by_actor = HashMap::new();
+    let mut originals: Vec<(usize, crate::ActorCell)> = Vec::new();
+    for (w, kind) in slots.iter().enumerate() {
+        if kind == "-" {
+            continue;
+        }
+        let working = kind == "drain" || busy.contains(&w);
+        let curr: Vec<u64> = if working { vec![5] } else { vec![] };
+        let (rec, _got, _r) = wp::record_logging_at(w, &[], &curr, kind == "drain").await;
+        worker_by_actor.insert(rec.actor.get_id(), w);
+        originals.push((w, rec.actor.get_cell()));
+        pool.insert(w, rec);
+    }
+    let routed = Arc::new(Mutex::new(Vec::new()));
+    let mut state: FactoryState<u64, u64, ProbeWorker, (), ScriptRouter, DefaultQueue<u64, u64>> = FactoryState {
+        factory_name: "verif".to_string(),
+        worker_builder: Box::new(ProbeBuilder),
+        pool_size,
+        pool,
+        worker_by_actor,
+        stats: None,
+        router: ScriptRouter { script: Default::default(), choose: Default::default(), routed },
+        queue: DefaultQueue::<u64, u64>::default(),
+        discard_handler: None,
+        discard_settings: DiscardSettings::None,
+        drain_state: DrainState::NotDraining,
+        dead_mans_switch: None,
+        dead_mans_check: None,
+        capacity_controller: None,
+        lifecycle_hooks: None,
+    };
+    let (stranger, _sh) = Actor::spawn(None, ProbeFactoryActor, ()).await.unwrap();
+    if let Some(n) = op.strip_prefix("resize:") {
+        let _ = state.resize_pool(&me, n.parse().unwrap()).await;
+    } else {
+        let (kind, who) = op.split_once(':').unwrap();
+        let cell = match who.parse::<usize>() {
+            Ok(w) => originals.iter().find(|(x, _)| *x == w).map(|(_, c)| c.clone()).unwrap(),
+            Err(_) => stranger.get_cell(),
+        };
+        let evt = if kind == "ActorTerminated" { SupervisionEvent::ActorTerminated(cell, None, None) } else { SupervisionEvent::ActorFailed(cell, "verif".into()) };
+        let f: Factory<u64, u64, (), ProbeWorker, ScriptRouter, DefaultQueue<u64, u64>> = Factory::default();
+        let _ = f.handle_supervisor_evt(me.clone(), evt, &mut state).await;
+    }
+    for _ in 0..50 {
+        tokio::task::yield_now().await;
+    }
+    crate::concurrency::sleep(Duration::from_millis(20)).await;
+    let mut s: Vec<String> = Vec::new();
+    let mut consistent = state.worker_by_actor.len() == state.pool.len();
+    let mut wids: Vec<usize> = state.pool.keys().copied().collect();
+    wids.sort();
+    for w in wids {
+        let (d, b, id, rec_wid) = wp::flags(&state.pool[&w]);
+        let same = originals.iter().any(|(x, c)| *x == w && c.get_id() == id);
+        consistent = consistent && state.worker_by_actor.get(&id) == Some(&w) && rec_wid == w;
+        s.push(format!("{w}:{}{}{}", d as u8, b as u8, same as u8));
+    }
+    let alive: Vec<String> = originals
+        .iter()
+        .filter(|(_, c)| matches!(c.get_status(), crate::ActorStatus::Running | crate::ActorStatus::Upgrading))
+        .map(|(w, _)| w.to_string())
+        .collect();
+    let out = format!("pool_size={};slots={};index={}/{};alive={}", state.pool_size, s.join("+"), state.worker_by_actor.len(), consistent as u8, alive.join("+"));
+    for (_, w) in state.pool.drain() {
+        w.actor.stop(None);
+    }
+    out
+}
